@@ -46,4 +46,24 @@ def offsetMismatch (toks : List Tok) (Fo Fl : Fields) : Bool :=
 /-- two tuples describe the same instant as far as `%s` / `%f` can tell. -/
 def sameInstant (Fo Fl : Fields) : Bool := Fo.unix == Fl.unix && Fo.micros == Fl.micros
 
+/-! ### `FindSegments` with a start bound (playback `/get`, `/list?start=`) -/
+
+/-- the loop "find the segment that may contain the start of the playback and remove all previous
+ones"; if no pair brackets `s` only the last segment is kept.  Segments are (file, start) sorted by start. -/
+def dropTo (s : Int) : List (Bytes × Int) → List (Bytes × Int)
+  | a :: b :: r => if a.2 ≤ s ∧ s < b.2 then a :: b :: r else dropTo s (b :: r)
+  | l => l
+
+/-- `FindSegments(conf, name, &start, nil)` on the sorted list of recognised segments (`none` =
+`ErrNoSegmentsFound`). -/
+def selectFrom (segs : List (Bytes × Int)) (s : Int) : Option (List (Bytes × Int)) :=
+  match segs with
+  | [] => none
+  | a :: _ =>
+    if s < a.2 then some segs
+    else
+      match dropTo s segs with
+      | [x] => if x.2 > s then none else some [x]
+      | r => some r
+
 end MtxVerif.C31
